@@ -7,6 +7,11 @@ Decided part:
             re-run after ANY interruption starts from the same journal and -- because the replayed blocks'
             final content is a function of the journal only (C03 recover/replay_pass: the initial filesystem
             bytes are symbolic) -- produces the same blocks.
+  e2fsck_front  the real e2fsck_check_ext3_journal + e2fsck_run_ext3_journal (as main() sequences them): whenever recovery is
+            entered the needs_recovery flag is durable -- the handle was clean with the flag on disk, or the last flush before the
+            replay wrote a superblock image with the flag set and was a syncing flush; re-open afterwards, flag cleared only then.
+  flush_sync    the real ext2fs_flush2: a flush without EXT2_FLAG_FLUSH_NO_SYNC ends with a device sync whatever fs->flags holds,
+            everything else is synced before the primary superblock, the primary image carries needs_recovery, backups never do.
   protocol  the real recover_ext3_journal / e2fsck_journal_release / brelse / ll_rw_block: the journal
             superblock is written with s_start == 0 only after recovery (write* ; sync) has returned.
 """
@@ -21,8 +26,10 @@ META = {
                     "device writes succeed (I/O errors during replay are not modelled)",
                     "the unix_io write-back cache between ll_rw_block and the device is represented by its C17 "
                     "specification: a write becomes durable no later than the next flush"],
-    "outside": ["crash points INSIDE the device (torn / reordered sectors)", "needs_recovery handling after the reopen in "
-                "e2fsck_run_ext3_journal and the restart logic of unix.c:main", "debugfs front-end (ext2fs_run_ext3_journal)",
+    "outside": ["crash points INSIDE the device (torn / reordered sectors)", "the restart logic of unix.c:main (E2F_FLAG_RESTARTED; the "
+                "check-then-run sequence of main() is restated in e2fsck_front), journal loading/validation (e2fsck_get_journal, "
+                "e2fsck_journal_load are cut), the 'journal fields without has_journal' dialogue",
+                "debugfs front-end: decided in C03/dbg_protocol (same barrier: syncing flush before the replay)",
                 "checksummed journals, fast commit, external journal plumbing (as C03)",
                 "the failure path: recover_ext3_journal resets the journal even when recovery failed (upstream behaviour: a full check follows)"],
 }
@@ -60,6 +67,24 @@ HARNESSES = [
     dict(name="syncdev", src="syncdev.c", funcs=["sync_blockdev", "getblk", "ll_rw_block"],
          unwind=4, backends=["default"],
          bound="internal and external journal, both devices, any block number, flush outcome symbolic"),
+    dict(name="flush_sync", src="flush_sync.c", extra_src=["lib/ext2fs/blknum.c"],
+         funcs=["ext2fs_flush2", "write_primary_superblock", "write_backup_super", "ext2fs_super_and_bgd_loc2"],
+         configs=[{"ORIG": 0}, {"ORIG": 1}],
+         unwind=4, unwindset=["main.%d:14" % i for i in range(6)] + ["vf_log.0:14", "ext2fs_flush2.0:4", "test_root.0:6",
+                             "write_primary_superblock.0:514", "write_primary_superblock.1:514", "write_primary_superblock.2:514"],
+         backends=["default", "kissat"],
+         bound="2 groups, 1 KiB blocks; fs->flags RW/DIRTY/MASTER_SB_ONLY/SUPER_ONLY, the flags argument (any int), journal_dev, "
+               "needs_recovery, sparse_super, s_state symbolic; primary superblock written whole, or (ORIG=1) by changed byte ranges "
+               "through write_byte (three concrete changed ranges)"),
+    dict(name="e2fsck_front", src="e2fsck_front.c",
+         cut_statics={"e2fsck/journal.c": ["e2fsck_get_journal", "e2fsck_journal_load"]},
+         funcs=["e2fsck_check_ext3_journal", "e2fsck_run_ext3_journal", "recover_ext3_journal", "e2fsck_journal_release",
+                "e2fsck_clear_recover", "brelse", "ll_rw_block"],
+         unwind=4, unwindset=["main.%d:22" % i for i in range(6)] + ["vf_log.0:22", "jbd2_journal_recover.0:5", "ll_rw_block.0:3"],
+         backends=["default", "kissat"],
+         bound="superblock as opened: needs_recovery set/clear, s_state symbolic, has_journal set; handle clean/dirty; journal superblock "
+               "s_start (0 = empty) / s_sequence / s_errno symbolic; every fix_problem answer word; every e2fsck option word; -b or "
+               "not; 0..3 replay writes; outcome of the journal load inside recovery and of recovery symbolic"),
     dict(name="protocol", src="protocol.c",
          cut_statics={"e2fsck/journal.c": ["e2fsck_get_journal", "e2fsck_journal_load"]},
          funcs=["recover_ext3_journal", "e2fsck_journal_release", "brelse", "ll_rw_block"],
